@@ -2,7 +2,7 @@
 gate, running the hook and the model, evidence / replay / known-finding bookkeeping."""
 import json, os, re, subprocess, sys, time, hashlib, glob, shutil
 
-ROOT = '/verif'
+ROOT = os.path.dirname(os.path.dirname(os.path.abspath(__file__)))
 REPO = '/repo'
 CACHE = os.path.join(ROOT, '.cache')
 COQ = os.path.join(ROOT, 'coq')
